@@ -68,12 +68,29 @@ func collectConsts() {
 	}
 }
 
+// where things happen in the function being translated (for value aliases, see expand)
+var (
+	fnWrites []posText   // every assignment / inc-dec: text of its left-hand side
+	fnCalls  []token.Pos // every call expression
+)
+
+type posText struct {
+	pos token.Pos
+	txt string
+}
+
 func collectLocals(fd *ast.FuncDecl) {
 	locals = map[string]ast.Expr{}
+	fnWrites, fnCalls = nil, nil
 	count := map[string]int{}
 	ast.Inspect(fd.Body, func(n ast.Node) bool {
 		switch x := n.(type) {
+		case *ast.CallExpr:
+			fnCalls = append(fnCalls, x.Pos())
 		case *ast.AssignStmt:
+			for _, l := range x.Lhs {
+				fnWrites = append(fnWrites, posText{x.Pos(), text(l)})
+			}
 			for i, l := range x.Lhs {
 				if id, ok := l.(*ast.Ident); ok {
 					count[id.Name]++
@@ -85,6 +102,7 @@ func collectLocals(fd *ast.FuncDecl) {
 				}
 			}
 		case *ast.IncDecStmt:
+			fnWrites = append(fnWrites, posText{x.Pos(), text(x.X)})
 			if id, ok := x.X.(*ast.Ident); ok {
 				count[id.Name] += 10
 			}
@@ -215,8 +233,10 @@ func expand(e ast.Expr) string {
 	for i := 0; i < 3; i++ {
 		changed := false
 		for name, def := range locals {
-			if !isBoolExpr(def) {
+			if !isBoolExpr(def) && !isFreshAlias(def, e.Pos()) {
 				continue // only named CONDITIONS are looked through; other locals (now, beforeTS, ttl ..) are what kernels are about
+				// - and VALUE ALIASES: a local defined once as a plain read (`current := *existing`), when nothing between its
+				// definition and the condition can have changed what it read (no write to that expression, no call at all)
 			}
 			re := regexp.MustCompile(`\b` + regexp.QuoteMeta(name) + `\b`)
 			if re.MatchString(t) && !strings.Contains(text(def), name) {
@@ -229,6 +249,40 @@ func expand(e ast.Expr) string {
 		}
 	}
 	return t
+}
+
+// isFreshAlias: def is a pure read (identifier / selector / dereference chain) and between def and use there is neither a
+// write to that very expression nor any call.
+func isFreshAlias(def ast.Expr, use token.Pos) bool {
+	var pure func(e ast.Expr) bool
+	pure = func(e ast.Expr) bool {
+		switch x := e.(type) {
+		case *ast.Ident:
+			return true
+		case *ast.SelectorExpr:
+			return pure(x.X)
+		case *ast.StarExpr:
+			return pure(x.X)
+		case *ast.ParenExpr:
+			return pure(x.X)
+		}
+		return false
+	}
+	if _, isIdent := def.(*ast.Ident); isIdent || !pure(def) {
+		return false // (a bare identifier is a rename of a local: leave those to the kernels' own variable maps)
+	}
+	dt := text(def)
+	for _, w := range fnWrites {
+		if w.pos > def.End() && w.pos < use && w.txt == dt {
+			return false
+		}
+	}
+	for _, c := range fnCalls {
+		if c > def.End() && c < use {
+			return false
+		}
+	}
+	return true
 }
 
 // locate returns the Go expression a kernel refers to.
